@@ -228,6 +228,10 @@ def named_specs():
         A = np.array([[.5, .5, 0.], [-S3 / 2, S3 / 2, 0.], [0., 0., math.sqrt(float(csq))]])
         g = [[i, -h, o], [-h, i, o], [o, o, csq]]
         add(nm, A, g, [[(Fr(1, 3), Fr(2, 3), q), (Fr(2, 3), Fr(1, 3), 3 * q)]])
+        add(nm + "-afm", A, g, [[(Fr(1, 3), Fr(2, 3), q), (Fr(2, 3), Fr(1, 3), 3 * q)]], spins=[[1, -1]])
+    A, g = ratl(fcc)
+    add("diamond-afm", A, g, [[(o, o, o), (q, q, q)]], spins=[[1, -1]], Aq=fcc)
+    add("diamond-ferri", A, g, [[(o, o, o), (q, q, q)]], spins=[[2, -1]], Aq=fcc)
     tet = [[i, o, o], [o, i, o], [o, o, Fr(13, 10)]]; A, g = ratl(tet)
     add("polar", A, g, [[(o, o, o), (h, h, Fr(2, 5))]], Aq=tet)
     add("polar2w", A, g, [[(o, o, o)], [(h, h, Fr(2, 5)), (o, h, Fr(17, 100)), (h, o, Fr(17, 100))]], Aq=tet)
@@ -238,6 +242,8 @@ def named_specs():
     A = np.array([[1., -.5], [0., S3 / 2]]); g = [[i, -h], [-h, i]]
     add("tria", A, g, [[(o, o)]])
     add("honeycomb", A, g, [[(Fr(1, 3), Fr(2, 3)), (Fr(2, 3), Fr(1, 3))]])
+    add("honeycomb-afm", A, g, [[(Fr(1, 3), Fr(2, 3)), (Fr(2, 3), Fr(1, 3))]], spins=[[1, -1]])
+    add("honeycomb-afm-vector", A, g, [[(Fr(1, 3), Fr(2, 3)), (Fr(2, 3), Fr(1, 3))]], spins=[[(1, 0), (-1, 0)]])
     rect = [[i, o], [o, Fr(13, 10)]]; A, g = ratl(rect)
     add("rect-polar2d", A, g, [[(o, o), (h, Fr(37, 100))]], Aq=rect)
     return out
@@ -467,3 +473,36 @@ def skew(rng, spec, nshear=2):
     basis = [[tuple(mod1(x) for x in fmat_vec(Ui, list(u))) for u in ul] for ul in spec.basis]
     Aq = fmat_mul(spec.Aq, U) if spec.Aq is not None else None
     return Spec(spec.label + "+skew", A2, g2, basis, spec.spins, Aq), U
+
+
+def afm_supercell(spec, w, base_spins=None, label=None):
+    """index-2 magnetic supercell: the sublattice {n : w.n even} of the spec's lattice, every atom repeated in the two
+    cosets, the spin reversed in the odd coset (an ANTI-translation: pure translation combined with spin reversal).
+    w = e_k doubles the cell along a_k; w = (1,1,1) keeps the 3-fold axis along a_1+a_2+a_3 of cubic/rhombohedral cells.
+    base_spins: per-atom scalar ints or vector tuples (default: the spec's spins, else +1 everywhere)."""
+    d = spec.dim
+    k = [i for i in range(d) if w[i] % 2][0]
+    cols = []
+    for j in range(d):
+        v = [0] * d
+        if j == k: v[k] = 2
+        else:
+            v[j] = 1; v[k] = w[j] % 2
+        cols.append(v)
+    N = [[Fr(cols[j][i]) for j in range(d)] for i in range(d)]      # columns = kernel basis
+    Ni = finv(N)
+    spins0 = base_spins if base_spins is not None else (spec.spins if spec.spins is not None else [[1 for _ in ul] for ul in spec.basis])
+    ek = [Fr(int(i == k)) for i in range(d)]
+    basis, spins = [], []
+    for ul, sl in zip(spec.basis, spins0):
+        bl, pl = [], []
+        for u, s0 in zip(ul, sl):
+            for x, sgn in (([Fr(0)] * d, 1), (ek, -1)):
+                v = tuple(mod1(y) for y in fmat_vec(Ni, [a + b for a, b in zip(u, x)]))
+                bl.append(v)
+                pl.append(tuple(sgn * c for c in s0) if isinstance(s0, tuple) else sgn * s0)
+        basis.append(bl); spins.append(pl)
+    A2 = spec.A @ np.array([[float(x) for x in r] for r in N])
+    g2 = fmat_mul(fmat_T(N), fmat_mul(spec.g, N))
+    Aq = fmat_mul(spec.Aq, N) if spec.Aq is not None else None
+    return Spec(label or (spec.label + "+afm" + "".join(str(x % 2) for x in w)), A2, g2, basis, spins, Aq)
